@@ -74,6 +74,7 @@ def run(ctx):
     repeated_requests(ctx)
     repeated_raw_element_arguments(ctx)
     encoded_any_parts(ctx)
+    optional_groups_and_same_named_derivations(ctx)
     unprefixed_namespaces_twins_and_simple_derivations(ctx)
     from harness.props import c07
     c07.handwritten_renderings(ctx)      # (blocks that name their own namespace by prefix / by default / not at all)
@@ -606,6 +607,40 @@ def encoded_any_parts(ctx):
         except Exception as e:
             got = "%s: %s" % (type(e).__name__, e)
         want = [[XSD, tname], [XSD, tname], str(val).lower(), str(val).lower()]
+        if got != want:
+            ctx.fail("request differs from what the WSDL prescribes", meta, got, want)
+
+
+def optional_groups_and_same_named_derivations(ctx):
+    """(a) None for the required members of an OPTIONAL group (minOccurs=0 on the compositor) inside an anonymous type
+    leaves the group out; (b) a value of a derived type that has the local name of its base type (another namespace)
+    is sent with the xsi:type of the derived type."""
+    schema = ('<xsd:import namespace="urn:bb"/><xsd:complexType name="Item"><xsd:sequence><xsd:element name="n" type="xsd:string"/>'
+              '</xsd:sequence></xsd:complexType><xsd:element name="f"><xsd:complexType><xsd:sequence><xsd:element name="o">'
+              '<xsd:complexType><xsd:sequence><xsd:element name="a" type="xsd:string"/><xsd:sequence minOccurs="0">'
+              '<xsd:element name="b" type="xsd:string"/><xsd:element name="c" type="xsd:int"/></xsd:sequence></xsd:sequence>'
+              '</xsd:complexType></xsd:element><xsd:element name="i" type="x:Item"/></xsd:sequence></xsd:complexType></xsd:element>')
+    other = ('<xsd:schema xmlns:xsd="http://www.w3.org/2001/XMLSchema" xmlns:a="%s" targetNamespace="urn:bb" '
+             'elementFormDefault="qualified"><xsd:import namespace="%s"/><xsd:complexType name="Item"><xsd:complexContent>'
+             '<xsd:extension base="a:Item"><xsd:sequence><xsd:element name="extra" type="xsd:string"/></xsd:sequence>'
+             '</xsd:extension></xsd:complexContent></xsd:complexType></xsd:schema>' % (wsdlkit.TNS, wsdlkit.TNS))
+    for unwrap in (True, False):
+        meta = {"stream": "optional-groups-and-same-named-derivations", "unwrap": unwrap}
+        ctx.case(common.canon(meta), True)
+        try:
+            c = wsdlkit.client(wsdlkit.wsdl_doc(schema, "f", None, extra_schemas=other), nosend=True, unwrap=unwrap)
+            it = c.factory.create("{urn:bb}Item")
+            it.n, it.extra = "n1", "e1"
+            args = {"o": {"a": "x", "b": None, "c": None}, "i": it}
+            env = wsdlkit.envelope_bytes(c.service.f(**args) if unwrap else c.service.f(args))
+            fn = xmlread.find1(xmlread.find1(xmlread.parse(env), "Body"), "f")
+            o_, i_ = fn["children"]
+            t = i_["attrs"].get((xmlread.XSI, "type"))
+            got = [[k["name"][1] for k in o_["children"]], None if t is None else list(xmlread.resolve_qname(i_, t)),
+                   [[k["name"][0], k["name"][1], k.get("text")] for k in i_["children"]]]
+        except Exception as e:
+            got = "%s: %s" % (type(e).__name__, e)
+        want = [["a"], ["urn:bb", "Item"], [[wsdlkit.TNS, "n", "n1"], ["urn:bb", "extra", "e1"]]]
         if got != want:
             ctx.fail("request differs from what the WSDL prescribes", meta, got, want)
 
